@@ -469,7 +469,24 @@ fn compile_to_ir_using_alpha(
 		let declarations = parser::parse(tokens);
 		stdout.dump_code(&filename, &declarations)?;
 
-		let mut source = source;
+		// Lines end at a line feed and nowhere else (the lexer, `line!()`).
+		// The renderer of the reports would also break lines at a form feed,
+		// a vertical tab, NEL, U+2028, U+2029 or a lone carriage return and
+		// then count lines differently, so it is shown a space instead.
+		let mut chars = source.chars().peekable();
+		let mut source = String::with_capacity(source.len());
+		while let Some(c) = chars.next()
+		{
+			match c
+			{
+				'\r' if chars.peek() != Some(&'\n') => source.push(' '),
+				'\x0B' | '\x0C' | '\u{0085}' | '\u{2028}' | '\u{2029}' =>
+				{
+					source.push(' ')
+				}
+				c => source.push(c),
+			}
+		}
 		if source.is_empty()
 		{
 			source.push_str(" ");
